@@ -73,7 +73,7 @@ def _encode_identifier(asn1_class: int, constructed: bool, tag: int) -> bytes:
 
     flags = (asn1_class << 6) | (0x20 if constructed else 0x00)
 
-    if tag < 0x20:
+    if tag < 0x1f:
         identifier = [flags | tag]
     else:
         identifier = [tag & 0x7f]
